@@ -266,8 +266,14 @@ func (s *scen) Apply(i int) (string, string) {
 		return "", ""
 	case 4, 5, 6:
 		if o.kind == 5 || o.kind == 6 {
+			// the other percentage: everything may be ejected - or, where that is the configured value, one third
+			// (so that a reload that LOWERS the share exists from the initial state, too)
+			alt := 1.0
+			if s.cfg.Pct == 1.0 {
+				alt = 0.34
+			}
 			if s.pct == s.cfg.Pct {
-				s.pct = 1.0
+				s.pct = alt
 			} else {
 				s.pct = s.cfg.Pct
 			}
@@ -431,6 +437,11 @@ func (s *scen) nodesCheck(o opDef) string {
 func (s *scen) Key() string {
 	var b strings.Builder
 	fmt.Fprintf(&b, "p%v|", s.pct)
+	// implementation side: the percentage the module reports as in force (two load paths reach the same
+	// reference state; they are the same state only if the module agrees)
+	for _, r := range outlier.GetRules() {
+		fmt.Fprintf(&b, "in-force:%s=%v|", r.Resource, r.MaxEjectionPercent)
+	}
 	for _, n := range s.m {
 		d := int64(0)
 		if n.state == stOpen {
